@@ -10,6 +10,8 @@
 import GoSecs.Lemmas.Secs1
 import GoSecs.Lemmas.Secs1Line
 import GoSecs.Lemmas.Secs1Gen
+import GoSecs.Lemmas.Secs1LineGen
+import GoSecs.Lemmas.Secs1LineModel
 import GoSecs.Gen.Consts
 
 namespace GoSecs.Props.C18
@@ -39,6 +41,116 @@ theorem parseBlock_gen (lb : UInt8) (rest : Bytes) :
         | .ok b => (b.toGen, none)
         | .error e => (Gen.secs1_block.zero, some e.goName)) :=
   Secs1.parseBlock_gen lb rest
+
+/-! ## The line engine, regenerated from secs1/line.go (effect mode with the I/O extension of tools/go2lean)
+
+  Socket reads / writes, deadline calls, the clock, the live timers, the context poll, the metrics counters and the
+  `deliver` callback are trace entries (`LnEv`, rendered by `rend`); what they return comes from a script of environment
+  answers (`Io.Ans`, rendered as the oracle list by `Io.enc`).  `…S` are the hand-written sequential functions of
+  Lemmas/Secs1LineGen.lean.  Each theorem holds for every script, both roles, every block, every fuel for which the
+  sequential function returns (`none` = the script does not answer what the code asks, or out of fuel; the regenerated
+  function is then `none` too for "out of fuel", see `Io.loopWhileM_sim`). -/
+
+/-- `readByte(timeout)`: clock, `SetReadDeadline(clock + timeout)`, one `ReadByte`. -/
+theorem readByte_gen (l : Gen.secs1_lineIO) (timeout : Int) (s : List Io.Ans) (rest : List Go.Val)
+    (b : UInt8) (e : Go.Err) (evs : List LnEv) (s' : List Io.Ans) (h : readByteS timeout s = some (b, e, evs, s')) :
+    Gen.secs1_lineIO_readByte l timeout (Io.enc s ++ rest) = ((b.toNat : Int), e, rend evs, Io.enc s' ++ rest) :=
+  Secs1.readByte_gen l timeout s rest b e evs s' h
+
+/-- `writeAll(data)`: `conn.Write(data[written:])` until everything is out or a write fails. -/
+theorem writeAll_gen (l : Gen.secs1_lineIO) (fuel : Nat) (data : Bytes) (s : List Io.Ans) (rest : List Go.Val)
+    (e : Go.Err) (evs : List LnEv) (s' : List Io.Ans) (h : writeAllS fuel data s = some (e, evs, s')) :
+    Gen.secs1_lineIO_writeAll l data fuel (Io.enc s ++ rest) = some (e, rend evs, Io.enc s' ++ rest) :=
+  Secs1.writeAll_gen l fuel data s rest e evs s' h
+
+/-- **`sendBlockData`**: write the block's wire form, then ONE character under T2: ACK → sendOK; any other
+    character, a read error or the T2 timeout → sendRetry; a write error → sendAbort. -/
+theorem sendBlockData_gen (l : Gen.secs1_lineIO) (fuel : Nat) (blk : Block) (s : List Io.Ans) (rest : List Go.Val)
+    (code : Int) (err : Go.Err) (evs : List LnEv) (s' : List Io.Ans)
+    (h : sendDataS fuel blk s = some (code, err, evs, s')) :
+    Gen.secs1_lineIO_sendBlockData l blk.toGen fuel (Io.enc s ++ rest) = some (code, err, rend evs, Io.enc s' ++ rest) :=
+  Secs1.sendData_gen l fuel blk s rest code err evs s' h
+
+/-- **`sendBlockOnce`**: ENQ; deadline = clock + T2; per iteration the context poll, the remaining T2 budget
+    (`deadline - clock <= 0` → sendRetry), one character under that budget; EOT → `sendBlockData`; ENQ at a slave
+    (`!isEquip`) → sendContention, detected only; every other character (a stray ENQ at the master included) is
+    ignored and the wait goes on. -/
+theorem sendBlockOnce_gen (l : Gen.secs1_lineIO) (fuel : Nat) (blk : Block) (s : List Io.Ans) (rest : List Go.Val)
+    (code : Int) (err : Go.Err) (evs : List LnEv) (s' : List Io.Ans)
+    (h : sendOnceS fuel l.isEquip blk s = some (code, err, evs, s')) :
+    Gen.secs1_lineIO_sendBlockOnce l blk.toGen fuel (Io.enc s ++ rest) = some (code, err, rend evs, Io.enc s' ++ rest) :=
+  Secs1.sendOnce_gen l fuel blk s rest code err evs s' h
+
+/-- **`sendBlock`, the RTY loop**: `for retry <= retryLimit`; sendOK → nil; sendRetry → `retry++`; sendContention →
+    count the yield, EOT, `receiveBlock`: a failed receive is a retry (`retry++`, nothing delivered), a received block
+    is handed to `deliver` and `retry = 0`; sendAbort → the error; the loop left → ErrSendFailed. -/
+theorem sendBlock_gen (l : Gen.secs1_lineIO) (fuel : Nat) (blk : Block) (limit : Int) (s : List Io.Ans)
+    (rest : List Go.Val) (err : Go.Err) (evs : List LnEv) (s' : List Io.Ans)
+    (h : sendBlockS fuel l.isEquip blk limit s = some (err, evs, s')) :
+    Gen.secs1_lineIO_sendBlock l blk.toGen limit fuel (Io.enc s ++ rest) = some (err, rend evs, Io.enc s' ++ rest) :=
+  Secs1.sendBlock_gen l fuel blk limit s rest err evs s' h
+
+/-- **`receiveBlock`** (the receiver side of the exactly-once argument: what gets ACKed): see Props/C17
+    `receiveBlock_gen` for the statement; here re-exported because a block that is ACKed without being valid, or NAKed
+    although valid, breaks "delivered exactly once". -/
+theorem receiveBlock_gen (l : Gen.secs1_lineIO) (fuel : Nat) (s : List Io.Ans) (rest : List Go.Val)
+    (ob : Option Block) (err : Go.Err) (evs : List LnEv) (s' : List Io.Ans)
+    (h : receiveS fuel s = some (ob, err, evs, s')) :
+    Gen.secs1_lineIO_receiveBlock l fuel (Io.enc s ++ rest) = some (blkGen ob, err, rend evs, Io.enc s' ++ rest) :=
+  Secs1.receive_gen l fuel s rest ob err evs s' h
+
+/-! ### … and the sequential line engine is the character-level model on the script of a peer schedule
+
+  `Env`: how a peer behaviour becomes environment answers (clock readings, the live timers with `0 < T2`, a noise
+  character other than ENQ/EOT, a reply other than ACK, what arrives of a corrupted block — any byte string
+  `receiveBytes` does not accept, e.g. a block with one character flipped: `flipped_character_never_acked`). -/
+
+/-- **One iteration of the RTY loop against one peer action is the model's `sendAttempt`**: the loop goes on / returns
+    as the model's outcome says (OK → nil; retry and failed yield → `retry + 1`; delivered yield → `retry = 0`), the
+    characters written are the model's, the block handed to `deliver` is the model's — both roles, all nine actions. -/
+theorem attempt_is_sendAttempt (env : Env) (hok : env.OK) (F : Nat) (isEquip : Bool) (blk : Block) (act : PeerAct)
+    (hwf : act.WF) (evs : List LnEv) (rest : List Io.Ans) (retry : Int) :
+    sbStep (F + 2) isEquip blk ⟨evs, actScript env isEquip blk act ++ rest, retry⟩ =
+      some (stepOf (sendAttempt isEquip blk act).1 (evs ++ actEvs env isEquip blk act) rest retry) ∧
+    writes (actEvs env isEquip blk act) = (sendAttempt isEquip blk act).2.1 ∧
+    delivered (actEvs env isEquip blk act) = ((sendAttempt isEquip blk act).2.2.map Block.toGen).toList :=
+  ⟨attempt_model env hok F isEquip blk act hwf evs rest retry, act_writes env hok isEquip blk act hwf,
+   act_delivered env hok isEquip blk act hwf⟩
+
+/-- **The regenerated `sendBlock` is the model's `sendBlock`** — for every retry limit, both roles, every block, every
+    schedule of peer actions, every environment and every fuel above the number of attempts the model makes: the Go
+    function returns nil iff the model's trace is `ok` and ErrSendFailed otherwise, consumes exactly the answers of the
+    attempts the model makes, writes exactly the model's `line` and hands `deliver` exactly the model's `delivered`.
+    So `attempts_le_retry_plus_one`, `send_ok_iff_single_ack`, `master_never_yields`, `yield_delivers_only_intact`
+    below are statements about what the source does on the line. -/
+theorem sendBlock_source_is_model (env : Env) (hok : env.OK) (F : Nat) (l : Gen.secs1_lineIO) (blk : Block)
+    (limit : Nat) (sched : List PeerAct) (hwf : ∀ a ∈ sched, a.WF)
+    (hF : (sendBlock l.isEquip limit blk sched).attempts.length + 1 ≤ F + 2) (rest : List Go.Val) :
+    ∃ evs, Gen.secs1_lineIO_sendBlock l blk.toGen (limit : Int) (F + 2)
+              (Io.enc (schedScript env l.isEquip blk limit 0 sched) ++ rest) =
+        some (if (sendBlock l.isEquip limit blk sched).ok then none else some "ErrSendFailed", rend evs, rest) ∧
+      writes evs = (sendBlock l.isEquip limit blk sched).line ∧
+      delivered evs = (sendBlock l.isEquip limit blk sched).delivered.map Block.toGen := by
+  obtain ⟨evs, h, hw, hd⟩ := sendBlock_model env hok F l.isEquip blk limit sched hwf hF []
+  refine ⟨evs, ?_, hw, hd⟩
+  have := Secs1.sendBlock_gen l (F + 2) blk (limit : Int) _ rest _ evs [] h
+  simpa using this
+
+/-- **`receiveBlock` computes the model's verdict** for every byte string that arrives after our EOT (and then
+    silence): it returns the block iff `receiveBytes` says `.block`, the verdict's sentinel otherwise, answers with the
+    one character `(receiveBytes bs).answer`, and (`recvEvs`) drains the line before the NAK exactly for a bad length
+    and for a parse error — never for the T2 / T1 timeouts. -/
+theorem receiveBlock_source_is_model (env : Env) (fuel : Nat) (l : Gen.secs1_lineIO) (bs : Bytes) (rest : List Go.Val) :
+    Gen.secs1_lineIO_receiveBlock l (fuel + 2) (Io.enc (recvScript env bs) ++ rest) =
+      some (blkGen (receiveBytes bs).blockOpt, (receiveBytes bs).err, rend (recvEvs env bs), rest) ∧
+    writes (recvEvs env bs) = [(receiveBytes bs).answer] := by
+  have h := receive_model env fuel bs []
+  have := Secs1.receive_gen l (fuel + 2) _ rest _ _ _ [] h
+  exact ⟨by simpa using this, recvEvs_writes env bs⟩
+
+/-- a usable environment exists (a corrupted block of which nothing arrives is one that is not accepted) -/
+example : (⟨{ Gen.hsms_TimerConfig.zero with T2 := 1 }, 0, 0xFF, 0x00, fun _ => []⟩ : Env).OK :=
+  ⟨by decide, by decide, by decide, by decide, fun _ _ => by simp [receiveBytes]⟩
 
 /-! ## The RTY loop (character level) -/
 
